@@ -32,6 +32,7 @@ SKIP_FLAG_PREFIXES = (
     "--show-absolute-path", "--skip-cache-mtime-checks", "--export-ref-info", "--timing-stats", "--line-checking-stats",
     "--dump", "--stats", "--inferstats", "--scripts-are-modules", "-m", "-p", "-c", "--python-executable",
     "--disable-expression-cache",
+    "--show-error-code-links",  # adds only_once notes through a path that bypasses add_error_info (second-order by design)
 )
 
 
